@@ -119,6 +119,7 @@ def step (d : D) (fs : List String) : D × String :=
   | ["now", t] => match parseInt t with
     | some t => ({ d with s := Access.sync { d.s with now := t } }, "ok")
     | none => (d, "bad-op")
+  | ["prune"] => ({ d with s := { s with reg := Deny.step s.reg .prune } }, "ok")     -- the relay's periodic pruner runs (relay.go)
   | ["session", tok, id] => match hexToString id with
     | some id =>
       let r := Access.session d.cfg s (parseCred tok) id
